@@ -8,7 +8,7 @@ import vlib
 from props import tables
 
 TAG_PROP = {"c01": "C01", "c03": "C03", "c04": "C04", "c07": "C07", "c08": "C08", "c09": "C09", "c10": "C10", "c11": "C11",
-            "c12": "C12", "c13": "C13", "c17": "C17", "c18": "C18"}
+            "c12": "C12", "c13": "C13", "c17": "C17", "c18": "C18", "c20": "C20"}
 
 
 def gen_args(tier, seed):
